@@ -174,30 +174,81 @@ def replay_scenario(v):
     return out
 
 
-def _concrete_reference(steps, nrep):
-    """documented winner on the concrete witness (python re-statement), or None when outside its domain"""
-    base = {}
-    phase = 0
+def _val_key(v):
+    """order of concrete values as the replay renders them (ids zero-padded, so id order = byte order)"""
+    if v is None:
+        return (0, 0)
+    if isinstance(v, dict):
+        return (1, v['id'])
+    return (1, str(v))
+
+
+def concrete_winner(steps):
+    """documented winner on a concrete scenario (python re-statement of the rules).  Returns
+    (expected_task_or_None_if_deleted, acceptable_values_per_prop) or None outside the oracle's domain"""
+    base = None
     per = {}
+    synced_once = False
     for s in steps:
-        if 'commit' in s:
-            if phase == 0:
+        if 'sync' in s:
+            synced_once = True
+        elif 'commit' in s:
+            if not synced_once:
                 for o in s['ops']:
                     if o['op'] == 'create':
                         base = {}
-                    elif o['op'] == 'update':
+                    elif o['op'] == 'update' and base is not None:
                         if o['value'] is None:
                             base.pop(o['prop'], None)
                         else:
                             base[o['prop']] = o['value']
             else:
                 per.setdefault(s['commit'], []).extend(s['ops'])
-        elif 'sync' in s and phase == 0:
-            phase = 0.5
-        if phase == 0.5 and 'commit' in s:
-            phase = 1
-            per.setdefault(s['commit'], []).extend(s['ops'])
-    return base, per
+    if base is None:
+        return None
+    deleted = False
+    upd = {}
+    for r, ops in per.items():
+        seen = set()
+        for o in ops:
+            if o['op'] == 'delete':
+                deleted = True
+            elif o['op'] == 'create':
+                return None
+            elif o['op'] == 'update':
+                if o['prop'] in seen:
+                    return None
+                seen.add(o['prop'])
+                upd.setdefault(o['prop'], []).append((o['ts'], o['value']))
+    if deleted:
+        return ('deleted', None)
+    acceptable = {}
+    for p in set(base) | set(upd):
+        if p not in upd:
+            acceptable[p] = [base[p]]
+        else:
+            tmax = max(t for t, _ in upd[p])
+            acceptable[p] = [v for t, v in upd[p] if t == tmax]
+    return ('present', acceptable)
+
+
+def judge_winner(scn_steps, final):
+    exp = concrete_winner(scn_steps)
+    if exp is None:
+        return None
+    if exp[0] == 'deleted':
+        return None if final == {} else {'expected': 'task deleted', 'final': final}
+    task = final.get('1')
+    if task is None:
+        return {'expected': 'task present', 'final': final}
+    for p, ok_vals in exp[1].items():
+        got = task.get(p)
+        if got not in ok_vals:
+            return {'property': p, 'acceptable': ok_vals, 'got': got}
+    extra = set(task) - set(exp[1])
+    if extra:
+        return {'unexpected_properties': sorted(extra)}
+    return None
 
 
 def replay_judge(scn, out, v):
@@ -220,11 +271,22 @@ def replay_judge(scn, out, v):
         if finals[i] != finals[0]:
             probs.append({'order_dependent': [finals[0], finals[i]]})
     cls = v.get('info', {}).get('class')
-    if not probs and cls in ('wrong-winner', 'causal-override'):
-        # the solver's witness claims the winner is wrong: re-evaluate the documented rule on the real output
-        exp = v.get('info', {}).get('expected')
-        probs.append({'final_on_real_code': finals[0], 'witness': 'see counterexample file; documented-winner predicate false in the solver model'})
-        return True, probs
+    steps = (scn[0] if isinstance(scn, list) else scn)['steps']
+    if not probs and finals:
+        if cls == 'causal-override':
+            # sequential application of the two changes is the documented outcome
+            from .c05 import py_ref
+            tasks = {}
+            for st in steps:
+                if 'commit' in st:
+                    for o in st['ops']:
+                        py_ref(tasks, o)
+            if finals[0] != tasks:
+                probs.append({'final_on_real_code': finals[0], 'expected_sequential': tasks})
+        else:
+            w = judge_winner(steps, finals[0])
+            if w:
+                probs.append({'wrong_winner_on_real_code': w})
     return bool(probs), probs[:3]
 
 
